@@ -19,7 +19,9 @@ KEY_PERM = "C08:permutation-changes-solution"
 
 
 def transforms(tier, r):
-    ts = [("reflect0", dict(signs=(-1.0, 1.0))), ("shift", dict(shift=(0.7, -1.3))), ("permute", dict(perm=(1, 0)))]
+    ts = [("reflect0", dict(signs=(-1.0, 1.0))), ("shift", dict(shift=(0.7, -1.3))), ("permute", dict(perm=(1, 0))),
+          # translation after which the OTHER field has the larger |vev| in the low-temperature phase
+          ("shift-other-dominant", dict(shift=(-1.0, 4.0)))]
     if tier == "thorough":
         ts += [("reflect1", dict(signs=(1.0, -1.0))), ("reflect01+shift", dict(signs=(-1.0, -1.0), shift=(-2.0, 0.4))),
                ("permute+reflect+shift", dict(perm=(1, 0), signs=(-1.0, 1.0), shift=(r.uniform(-2, 2), r.uniform(-2, 2))))]
